@@ -224,16 +224,26 @@ def run_warm(case, ctx):
         np.random.seed(case['np_seed'] % (2 ** 32))
         total = float(case['N'])
         min_prev = 1.0
+        handed_back = []
         for ci, call in enumerate(case['calls']):
             ms = [pool_tuples[i] for i in call['idx']]
             if ci > 0:
+                handed_back.append((model, snapshot(model, attrs)))
                 # smallest cell mass (as a fraction of the total) of the model the next call starts from
                 for cl in model.cliques:
                     v = np.asarray(model.project(cl).values, dtype=float)
                     if v.size:
                         min_prev = min(min_prev, float(v.min()) / float(model.total))
             with quiet(), np.errstate(all='ignore'):
-                model = engine.estimate(ms, total=total, engine=solver)
+                model = engine.estimate(ms, total=(total if ci % 2 == 0 else 2 * total), engine=solver)
+            # models handed back by earlier warm-start calls are snapshots too
+            for j, (mod, s0) in enumerate(handed_back):
+                okb, why = same_snapshot(s0, snapshot(mod, attrs), 0)
+                ctx.check(okb and mod is not model, 'earlier_models_unchanged', 'model_mutated',
+                          'warm start: model returned by call %d changed after call %d: %s' % (j, ci, why or 'the same object was returned again'))
+                if not okb:
+                    return
+        total = float(model.total)
         last = [plain[i] for i in case['calls'][-1]['idx']]
         if case['zeros'] is not None:
             # the optimum over tables that respect the declared zeros: drop those cells from the oracle
